@@ -1,5 +1,213 @@
-"""Both-ways self-test of the checker (thorough tier); filled in by sa/selftest_*.py."""
+"""Both-ways self-test of the checker (thorough tier).
+
+For the property under test, variants of the *current* source are computed (first-order AST edits from
+:mod:`sa.mutgen`, selected by position-independent signature, plus a few hand-written text substitutions) and analysed
+through an in-memory overlay - nothing is written, nothing is executed:
+
+* a **seeded break** must make the property's check report a VIOLATION (exit 1),
+* a **benign twin** (an edit known to preserve behaviour) must leave it silent (exit 0).
+
+A rule that misses its seed or fires on its twin makes the run ``ANALYSIS-ERROR selftest`` (exit 2), never exit 1.
+The expectations live in ``sa/selftest_table.json`` (written by ``python -m sa.selftest calibrate`` and reviewed by
+hand); signatures that no longer apply to the current source are counted as "not applicable", not as failures, but
+the run fails closed when fewer than half of a property's seeds still apply.
+"""
+
+import json
+import multiprocessing as mp
+import os
+import pathlib
+import sys
+
+from . import check, mutgen
+from .model import Model, repo_root
+
+HERE = pathlib.Path(__file__).resolve().parent
+TABLE = HERE / 'selftest_table.json'
+
+# hand-written variants: (property, kind, name, file, old, new)   kind: 'break' | 'twin'
+CUSTOM = [
+    ('C16', 'break', 'swap Implication/Replication flag rows', 'concepts/junctors.py',
+     'Implication  ->  4| X|  | X| X|\n    Replication  <-  5| X| X|  | X|', 'Implication  ->  4| X| X|  | X|\n    Replication  <-  5| X|  | X| X|'),
+    ('C16', 'break', 'orthogonal row loses a pattern cell', 'concepts/junctors.py', 'Orthogonal   ~   7| X| X| X| X|', 'Orthogonal   ~   7| X| X| X|  |'),
+    ('C16', 'break', 'two kinds share a rank', 'concepts/junctors.py', 'Subcontrary  v   6|', 'Subcontrary  v   7|'),
+    ('C16', 'break', 'max() without default', 'concepts/junctors.py', ', default=0)', ')'),
+    ('C16', 'twin', 'sort key via attrgetter', 'concepts/junctors.py', 'self.sort(key=lambda r: r.order)', "import operator; self.sort(key=operator.attrgetter('order'))"),
+    ('C20', 'break', 'cover edges drawn in both directions', 'concepts/visualize.py',
+     "        if render or view:", "        for concept in lattice._concepts:\n            dot.edges((node_name(concept), node_name(c)) for c in concept.upper_neighbors)\n\n    if render or view:".replace('        for', '    for', 1).replace('            dot', '        dot', 1)),
+    ('C20', 'break', 'headlabel from properties', 'concepts/visualize.py', 'headlabel=make_object_label(concept.objects)', 'headlabel=make_object_label(concept.properties)'),
+    ('C20', 'twin', 'unsorted lower neighbours', 'concepts/visualize.py', 'for c in sorted(concept.lower_neighbors, key=sortkey))', 'for c in concept.lower_neighbors)'),
+    ('C17', 'break', 'conflicts listed in set order', 'concepts/definitions.py',
+     "    for o in objects:\n        for p in properties:\n            if (o, p) in difference:\n                yield (o, p)",
+     "    for o, p in difference:\n        if o in objects and p in properties:\n            yield (o, p)"),
+    ('C17', 'break', 'set_object extends from a set again', 'concepts/definitions.py', 'properties = tools.Unique(properties)', 'properties = set(properties)'),
+    ('C17', 'break', 'overlap message formats a set', 'concepts/contexts.py', 'common = sorted(set(objects) & set(properties))', 'common = set(objects) & set(properties)'),
+    ('C17', 'twin', 'overlap message sorted list of a frozenset', 'concepts/contexts.py', 'common = sorted(set(objects) & set(properties))', 'common = sorted(frozenset(objects) & set(properties))'),
+    ('C13', 'break', 'set_property extends from a set again', 'concepts/definitions.py', 'objects = tools.Unique(objects)', 'objects = set(objects)'),
+    ('C13', 'twin', 'set_object membership via list copy', 'concepts/definitions.py', 'properties = tools.Unique(properties)', 'properties = list(properties)'),
+    ('C11', 'break', 'lattice pickled as linked concepts', 'concepts/lattices.py', 'return self._context, self._tolist()', 'return self._context, self._concepts'),
+    ('C11', 'break', '_tolist swaps upper and lower', 'concepts/lattices.py',
+     "tuple(u.index for u in c.upper_neighbors),\n                 tuple(l.index for l in c.lower_neighbors))",
+     "tuple(l.index for l in c.lower_neighbors),\n                 tuple(u.index for u in c.upper_neighbors))"),
+    ('C19', 'break', 'only the first row length is checked', 'concepts/contexts.py', '{len(b) for b in bools} != {len(properties)}', 'len(bools[0]) != len(properties)'),
+    ('C19', 'twin', 'row lengths via any()', 'concepts/contexts.py', '{len(b) for b in bools} != {len(properties)}', 'any(len(b) != len(properties) for b in bools)'),
+    ('C19', 'break', 'duplicate check dropped for properties', 'concepts/contexts.py', "for items, name in [(objects, 'objects'), (properties, 'properties')]:",
+     "for items, name in [(objects, 'objects')]:"),
+    ('C14', 'twin', 'transposed copies through the constructor', 'concepts/definitions.py',
+     'return self._fromargs(self._properties.copy(), self._objects.copy(),', 'return self._fromargs(tools.Unique(self._properties), tools.Unique(self._objects),'),
+    ('C14', 'break', 'inverted shares the pair set', 'concepts/definitions.py', "if (o, p) not in pairs})\n\n    __invert__", "if (o, p) not in pairs} if False else pairs)\n\n    __invert__"),
+    ('C08', 'twin', 'implies via complement', 'concepts/lattice_members.py', 'return self._extent & other._extent == self._extent\n', 'return not self._extent & ~other._extent\n'),
+    ('C08', 'break', 'properly_implies not strict', 'concepts/lattice_members.py', 'return self._extent & other._extent == self._extent != other._extent', 'return self._extent & other._extent == self._extent'),
+    ('C08', 'break', 'orthogonal_to forgets the remainder', 'concepts/lattice_members.py',
+     "\n                and (self._extent | other._extent) != self.lattice.supremum._extent)", ")"),
+    ('C01', 'twin', 'trailing zeros via b | -b', 'concepts/matrices.py', "shift = (bitset & -bitset).bit_length() - 1  # trailing zero(s)", "shift = (bitset | -bitset).bit_length() - 1"),
+    ('C01', 'break', 'family indexed one too far', 'concepts/matrices.py', "shift = 1\n                    prime &= other[i]\n                i += shift\n                bitset >>= shift\n\n            return make_prime(prime)",
+     "shift = 1\n                    prime &= other[i + 1]\n                i += shift\n                bitset >>= shift\n\n            return make_prime(prime)"),
+    ('C01', 'break', 'fixed-width mask', 'concepts/algorithms/fcbo.py', 'j_mask = j_property - 1', 'j_mask = (j_property - 1) & 0xffffffffffffffff'),
+    ('C09', 'twin', 'lower start rank', 'concepts/algorithms/common.py', 'seen = -1', 'seen = -5'),
+    ('C09', 'break', 'start rank 0', 'concepts/algorithms/common.py', 'seen = -1', 'seen = 0'),
+    ('C09', 'break', 'downset over upper neighbours', 'concepts/lattice_members.py',
+     "_sortkey=operator.attrgetter('dindex'),\n                _next_concepts=operator.attrgetter('lower_neighbors')):", "_sortkey=operator.attrgetter('dindex'),\n                _next_concepts=operator.attrgetter('upper_neighbors')):"),
+    ('C12', 'break', 'cxt writes property labels first', 'concepts/formats/cxt.py', '    yield from objects\n    yield from properties', '    yield from properties\n    yield from objects'),
+    ('C12', 'break', 'upper-case suffix', 'concepts/formats/cxt.py', "suffix = '.cxt'", "suffix = '.CXT'"),
+    ('C07', 'twin', 'meet without closure', 'concepts/lattice_members.py',
+     "        common = self._extent & other._extent\n        extent = self.lattice._context._extents.double(common)\n        return self.lattice._mapping[extent]",
+     "        common = self._extent & other._extent\n        return self.lattice._mapping[common]"),
+    ('C07', 'break', 'join without closure', 'concepts/lattice_members.py',
+     "        common = self._extent | other._extent\n        extent = self.lattice._context._extents.double(common)\n        return self.lattice._mapping[extent]",
+     "        common = self._extent | other._extent\n        return self.lattice._mapping[common]"),
+    ('C06', 'break', 'dindex from reversed shortlex', 'concepts/lattices.py', 'enumerate(sorted(inst._concepts, key=inst._longlex))', 'enumerate(sorted(inst._concepts, key=inst._shortlex, reverse=True))'),
+    ('C05', 'break', 'lazy member list', 'concepts/lattices.py', "concepts = [Concept(self, *args)\n                    for args in context._lattice(infimum)]",
+     "concepts = list(Concept(self, *args)\n                    for args in context._lattice(infimum)) if False else (Concept(self, *args) for args in context._lattice(infimum))"),
+    ('C03', 'break', 'known neighbour queued again', 'concepts/algorithms/lindig.py', "                mapping[n_extent][3].append(extent)\n",
+     "                mapping[n_extent][3].append(extent)\n                push((n_extent.shortlex(), mapping[n_extent]))\n"),
+    ('C04', 'break', 'table shared between siblings', 'concepts/algorithms/fcbo.py', 'next_property_sets = property_sets.copy()', 'next_property_sets = property_sets'),
+    ('C04', 'twin', 'pruning disabled', 'concepts/algorithms/fcbo.py', '                    next_property_sets[j] = j_intent', '                    pass'),
+    ('C10', 'break', 'labels in sorted order', 'concepts/lattices.py', 'for o in context.objects:', 'for o in sorted(context.objects):'),
+    ('C18', 'break', 'subset test instead of equality', 'concepts/contexts.py', 'if it.prime() == extent:', 'if it.prime() & extent == extent:'),
+    ('C02', 'break', 'lattice lookup by intent', 'concepts/lattices.py', "        extent, intent = self._context.__getitem__(key, raw=True)\n        return self._mapping[extent]",
+     "        extent, intent = self._context.__getitem__(key, raw=True)\n        return self._mapping[intent]"),
+]
 
 
-def run(prop):
-    return 0
+def load_table():
+    if TABLE.exists():
+        return json.loads(TABLE.read_text())
+    return {}
+
+
+def _evaluate(args):
+    prop, relfile, mutated, root = args
+    model = Model(root, overlay={relfile: mutated})
+    rc, R = check.run_property(prop, 'quick', root, write=False, quiet=True, model=model)
+    detail = [l for l in R.lines if l.startswith(('VIOLATION', 'ANALYSIS-ERROR'))][:2]
+    return rc, detail
+
+
+def variants_for(prop, root, table):
+    """[(kind, label, relfile, mutated source)] applicable to the current tree; plus count of non-applicable seeds."""
+    want = table.get(prop, {'fire': [], 'silent': []})
+    fire, silent = set(want['fire']), set(want['silent'])
+    out, found = [], set()
+    for m in mutgen.generate(root):
+        if m['sig'] in fire:
+            out.append(('break', m['sig'], m['file'], m['mutated']))
+            found.add(m['sig'])
+        elif m['sig'] in silent:
+            out.append(('twin', m['sig'], m['file'], m['mutated']))
+            found.add(m['sig'])
+    missing = len((fire | silent) - found)
+    for p, kind, name, relfile, old, new in CUSTOM:
+        if p != prop:
+            continue
+        path = pathlib.Path(root) / relfile
+        src = path.read_text(encoding='utf-8') if path.exists() else ''
+        if src.count(old) != 1:
+            missing += 1
+            continue
+        mutated = src.replace(old, new)
+        try:
+            compile(mutated, relfile, 'exec')
+        except SyntaxError:
+            missing += 1
+            continue
+        out.append((kind, 'custom: ' + name, relfile, mutated))
+    return out, missing, len(fire | silent) + sum(1 for c in CUSTOM if c[0] == prop)
+
+
+def run(prop, root=None):
+    root = str(root or repo_root())
+    table = load_table()
+    variants, missing, total = variants_for(prop, root, table)
+    if not variants:
+        print(f'ANALYSIS-ERROR property={prop} selftest: no seeded variant applies to the current source')
+        return 2
+    with mp.Pool(min(16, os.cpu_count() or 4)) as pool:
+        results = pool.map(_evaluate, [(prop, f, src, root) for _, _, f, src in variants], chunksize=2)
+    failures = []
+    nb = nt = 0
+    for (kind, label, f, _), (rc, detail) in zip(variants, results):
+        if kind == 'break':
+            nb += 1
+            if rc != 1:
+                failures.append(f'seeded break not reported (rc={rc}): {label[:150]} {detail}')
+        else:
+            nt += 1
+            if rc != 0:
+                failures.append(f'benign twin raised an alarm (rc={rc}): {label[:150]} {detail}')
+    print(f'{prop} selftest: {nb} seeded breaks reported, {nt} benign twins silent, {missing} of {total} seeds not applicable to the current source'
+          + (f', {len(failures)} FAILURES' if failures else ''))
+    for f in failures[:20]:
+        print(f'ANALYSIS-ERROR property={prop} selftest: {f}')
+    if total and missing * 2 > total:
+        print(f'ANALYSIS-ERROR property={prop} selftest: more than half of the seeds no longer apply')
+        return 2
+    return 2 if failures else 0
+
+
+def calibrate(root='/repo', pinned='/tmp/pinned'):
+    """(Re)write selftest_table.json from the current rules: every mutant a property flags is a seeded break of that
+    property; the survivors classified equivalent by reading (design/mutation_survey.md) are the benign twins."""
+    design = HERE.parent / 'design'
+    surv = json.loads((design / 'survivors.json').read_text())
+    benign = [m for m in surv if m['cls'] == 'E' or m['id'] == 1993]
+    benign_keys = {(m['file'], m['old'], m['new']) for m in benign}
+    benign_sigs = set()
+    if pathlib.Path(pinned).exists():
+        for m in mutgen.generate(pinned):
+            src = (pathlib.Path(pinned) / m['file']).read_text(encoding='utf-8')
+            ls, le = src[:m['a']].count('\n'), src[:m['b']].count('\n')
+            sl, nl = src.split('\n'), m['mutated'].split('\n')
+            delta = len(nl) - len(sl)
+            key = (m['file'], '\n'.join(sl[ls:le + 1]), '\n'.join(nl[ls:le + 1 + delta]))
+            if key in benign_keys:
+                benign_sigs.add(m['sig'])
+    print(len(benign_sigs), 'benign signatures of', len(benign_keys))
+    muts = mutgen.generate(root)
+    props = sorted(check.PROPS)
+    jobs = [(p, m['file'], m['mutated'], root) for m in muts for p in props]
+    with mp.Pool(16) as pool:
+        res = pool.map(_evaluate, jobs, chunksize=16)
+    table = {p: {'fire': [], 'silent': []} for p in props}
+    k = 0
+    for m in muts:
+        for p in props:
+            rc, _ = res[k]
+            k += 1
+            if rc == 1 and m['sig'] not in benign_sigs:
+                table[p]['fire'].append(m['sig'])
+            elif m['sig'] in benign_sigs:
+                if rc == 0:
+                    table[p]['silent'].append(m['sig'])
+                else:
+                    print('WARNING benign twin not silent', p, rc, m['sig'])
+    TABLE.write_text(json.dumps(table, indent=0, sort_keys=True))
+    for p in props:
+        print(p, len(table[p]['fire']), 'breaks', len(table[p]['silent']), 'twins')
+
+
+if __name__ == '__main__':
+    if sys.argv[1:2] == ['calibrate']:
+        calibrate()
+    else:
+        sys.exit(run(sys.argv[1]))
